@@ -173,6 +173,7 @@ fn lookup_archive(rng: &mut Rng, a: usize, out: &mut Out) {
     let mut bytes = Vec::new();
     if reopen {
         let mut pm = PMTiles::new(TileType::Png, Compression::None);
+        pm.internal_compression = Compression::GZip; // named, not the constructor's default: defaults are not this property's business
         for (id, tok) in &tiles {
             pm.add_tile(*id, interner.items[*tok as usize - 1].clone()).expect("add");
         }
